@@ -427,7 +427,13 @@ def _interp(f, spec, req, live=None):
     bc = None
     if req.get("bc"):
         bc = "auto_periodic_neumann"
-    return np.asarray(f.interpolate(pts, bc=bc))
+    fill = req.get("fill")
+    if fill is not None:
+        # one point clearly outside the domain (it is wrapped on periodic axes)
+        hi = np.array([b[1] for b in f.grid.axes_bounds])
+        lo = np.array([b[0] for b in f.grid.axes_bounds])
+        pts = np.concatenate([pts, (hi + 0.75 * (hi - lo))[None, :]])
+    return np.asarray(f.interpolate(pts, bc=bc, fill=fill))
 
 
 # ---------------------------------------------------------------------------------------
@@ -531,8 +537,10 @@ def field_op_strategy(h):
     val = st.sampled_from([0.0, 1.0, -2.5, 7.0])
     return st.one_of(
         create,
-        st.fixed_dictionaries({"kind": st.just("f_interp"), "i": i, "pseed": st.integers(0, 3), "bc": st.booleans()}),
-        st.fixed_dictionaries({"kind": st.just("f_interp"), "i": i, "pseed": st.integers(0, 3), "bc": st.booleans()}),
+        st.fixed_dictionaries({"kind": st.just("f_interp"), "i": i, "pseed": st.integers(0, 3), "bc": st.booleans(),
+                               "fill": st.sampled_from([None, None, -1, -2, 0.0, -1.0, 2.5])}),
+        st.fixed_dictionaries({"kind": st.just("f_interp"), "i": i, "pseed": st.integers(0, 1), "bc": st.just(False),
+                               "fill": st.sampled_from([-1, -2, -1.0, -2.0])}),
         st.fixed_dictionaries({"kind": st.just("f_collect"), "i": i, "js": st.lists(i, max_size=2),
                                "copy": st.booleans()}),
         st.fixed_dictionaries({"kind": st.just("f_write"), "i": i, "value": val}),
